@@ -626,6 +626,32 @@ def run(ctx):
             expect_ok = not any(kk.startswith('lin_') for kk, _, _ in call['args'])
         eval_text(ctx, dict(text=text, us=gen_us(rng, 2), xs=[float(x) for x in rng.uniform(-20, 20, size=2)],
                             expect_ok=expect_ok, call=call if (expect_ok and r >= 0.11) else None))
+    # positional arguments: refused by the real parser (MalformedPriorInput since the fix) and by the model alike
+    from taurex.util.fitting import parse_priors, MalformedPriorInput
+    from taurex.parameter.factory import create_prior
+    for k in range(ctx.n(60, 600)):
+        call = gen_call(rng, k)
+        toks = [t for _, _, ts in call['args'] for t in ts] or [lit(rng), lit(rng)]
+        kw = ['%s=%s' % (key, ts[0]) for key, c, ts in call['args'] if c == 0][:int(rng.integers(0, 2))]
+        text = '%s(%s)' % (call['fn'], ', '.join(toks[:int(rng.integers(1, 3))] + kw))
+        case = dict(type='positional', text=text)
+        try:
+            parse_priors(text)
+            kind = 'accepted'
+        except MalformedPriorInput:
+            kind = 'MalformedPriorInput'
+        except Exception as e:
+            kind = type(e).__name__
+        d = ctx.model().call('c08.parse', C.S(text))
+        ctx.check_eq('positional prior arguments: parse_priors raises MalformedPriorInput / parsePrior rejects',
+                     (kind, False), ('MalformedPriorInput', bool(d.nat())), case)
+        try:
+            p = create_prior(text)
+            ctx.violation('text-positional-accepted', 'create_prior built a prior from positional arguments (silently '
+                          'dropping them)', case, dict(built=type(p).__name__ + ' ' + p.params()))
+        except Exception:
+            pass
+        ctx.case(key=None, bucket='text:positional:' + kind)
     # canonical print of generated calls, through the model, back into the real parser
     for k in range(ctx.n(400, 5000)):
         call = gen_call(rng, k)
@@ -639,6 +665,15 @@ def run(ctx):
 def replay(ctx, case):
     if 'type' not in case and 'case' in case:
         case = case['case']
+    if case.get('type') == 'positional':
+        from taurex.parameter.factory import create_prior
+        try:
+            p = create_prior(case['text'])
+            ctx.violation('text-positional-accepted', 'create_prior built a prior from positional arguments (silently '
+                          'dropping them)', case, dict(built=type(p).__name__ + ' ' + p.params()))
+        except Exception:
+            pass
+        return
     if case.get('type') == 'text':
         eval_text(ctx, case)
     else:
